@@ -3,6 +3,7 @@ binned_masses on synthetic imzML/ibd pairs against PewModel/Imzml.lean (mechanis
 bytes of the .ibd -> dict of spectra -> searchsorted -> sentinel -> reduceat -> [::2] -> zeroing -> placement by
 NumPy subscripts; specification: windowSum per pixel at [y-1][x-1]).  The driver gets the bytes of the .ibd file
 the harness wrote plus the offsets / lengths it wrote into the imzML and decodes the arrays itself."""
+import bisect
 import json
 import math
 import sys
@@ -101,11 +102,16 @@ def tables_close(a, b, tol_of):
             tol = tol_of(r, c)
             if tol is None:  # only the NaN pattern of this pixel is compared
                 continue
-            for x, y in zip(va, vb):
+            tols = tol if isinstance(tol, list) else [tol] * len(va)
+            if len(tols) != len(va):
+                return False
+            for x, y, t in zip(va, vb, tols):
+                if t is None:  # an undetermined element: not compared
+                    continue
                 if x is None or y is None:
                     if x is not y:
                         return False
-                elif x != y and abs(F(x) - F(y)) > tol:
+                elif x != y and abs(F(x) - F(y)) > t:
                     return False
     return True
 
@@ -122,10 +128,81 @@ def same_pattern(a, b):
     return all(len(ra) == len(rb) and all((pa is None) == (pb is None) for pa, pb in zip(ra, rb)) for ra, rb in zip(a, b))
 
 
+INT_MT = ("pyint", "np-i8", "list-int", "tuple-int", "i4", "i8")
+F4_MT = ("np-f4", "f4")
+SCALAR_MT = ("pyfloat", "pyint", "np-f8", "np-f4", "np-i8", "0d-f8")
+SEQ_MT = ("list", "list-int", "list-mixed", "tuple", "tuple-int", "f8", "f8-strided", "f4", "i4", "i8")
+WTYPES = ("float", "int", "np-f8", "np-f4")
+
+
+def exact_of(x):
+    """the exact value of a number as it is passed to pewlib"""
+    return F(int(x)) if isinstance(x, (int, np.integer)) else F(float(x))
+
+
+def build_target(masses, mt):
+    """the object handed to extract_masses as `target_masses` for the argument type `mt`, and the exact values of its
+    elements: an int type passes int(m), a float32 type the float32 nearest to m - the target masses of the call ARE
+    these values, and they are what the model is given"""
+    if mt in SCALAR_MT:
+        m = masses[0]
+        obj = {"pyfloat": lambda: float(m), "pyint": lambda: int(m), "np-f8": lambda: np.float64(m),
+               "np-f4": lambda: np.float32(m), "np-i8": lambda: np.int64(int(m)), "0d-f8": lambda: np.array(float(m))}[mt]()
+        return obj, [exact_of(obj if mt != "0d-f8" else obj[()])]
+    if mt in ("list-int", "tuple-int"):
+        seq = [int(m) for m in masses]
+        return (seq if mt == "list-int" else tuple(seq)), [F(v) for v in seq]
+    if mt == "list-mixed":
+        seq = [int(masses[0])] + [float(m) for m in masses[1:]]
+        return seq, [exact_of(v) for v in seq]
+    if mt == "tuple":
+        seq = tuple(float(m) for m in masses)
+        return seq, [F(v) for v in seq]
+    if mt in ("f8", "f4", "i4", "i8"):
+        if mt[0] == "i":
+            arr = np.array([int(m) for m in masses], dtype={"i4": np.int32, "i8": np.int64}[mt])
+        else:
+            arr = np.array([float(m) for m in masses], dtype={"f8": np.float64, "f4": np.float32}[mt])
+        return arr, [exact_of(v) for v in arr]
+    if mt == "f8-strided":  # a view with a stride of two elements
+        arr = np.repeat(np.array([float(m) for m in masses], dtype=np.float64), 2)[::2]
+        return arr, [exact_of(v) for v in arr]
+    seq = [float(m) for m in masses]  # "list"
+    return seq, [F(v) for v in seq]
+
+
+def build_width(value, wt):
+    obj = {"float": lambda: float(value), "int": lambda: int(value), "np-f8": lambda: np.float64(value),
+           "np-f4": lambda: np.float32(value)}.get(wt, lambda: float(value))()
+    return obj, exact_of(obj)
+
+
+def f32_exact(q):
+    with np.errstate(over="ignore"):
+        v = np.float32(float(q))
+    return bool(np.isfinite(v)) and F(float(v)) == q
+
+
+def edge_guard(real, wkind, mvals, wval, mt, wt, edges):
+    """None when the float window edges the code computes ARE the exact edges m -/+ w/2; else the relative distance
+    within which a peak next to an edge makes the element undetermined (1e-9 for float64 arithmetic, 1e-6 when the
+    targets or the width are float32, which makes NumPy compute the edges in float32)"""
+    f4 = mt in F4_MT or wt == "np-f4"
+    rel = F(1, 10 ** 6) if f4 else F(1, 10 ** 9)
+    if real or wkind == "ppm":
+        # m*ppm/1e6/2 and e.g. m*(ppm*5e-7) are both right but round differently
+        return rel
+    if f4:
+        return None if all(f32_exact(x) for x in [wval / 2] + list(edges) + list(mvals)) else rel
+    h = float(wval) / 2.0
+    fl = [F(v) for m in mvals for v in (float(m) - h, float(m) + h)]
+    return None if fl == list(edges) else rel
+
+
 class C05(Prop):
     id = "C05"
     anchored = ["src/pewlib/io/imzml.py"]
-    cases = {"quick": 1500, "thorough": 20000}
+    cases = {"quick": 1200, "thorough": 20000}
     rule = ("synthetic imzML/ibd pairs: images 1x1..4x4, random subsets of pixels (also none), per-pixel or shared m/z axes of "
             "1..8 strictly increasing dyadic values, f32/f64 arrays, TIC stored/absent, image size present/absent; 1..5 target "
             "masses with ppm or absolute widths whose edges are exactly representable, spectra drawn from a grid plus (absolute widths) "
@@ -141,20 +218,51 @@ class C05(Prop):
             "lengths that are no whole number of elements). 8% of the cases are moved OUTSIDE the quantifier (position 0, negative, "
             "beyond the size, recorded twice, two positions on one pixel, smaller / empty / negative size, nothing at all): "
             "implementation vs model only, the specification is not evaluated. "
+            "EXTENSION ROUND (drawn after the main case from a stream of their own): EVERY case is imported through BOTH parsers of "
+            "ImzML.from_file (ElementTree, the default of the public API, and use_fast_parse=True) and every observation of either object "
+            "is judged against the same Lean model and specification; all calls of a case are made on ONE object per parser (history): "
+            "the four observation points, in 40% of the cases in a shuffled order, and in 55% one or two further calls - extractions "
+            "with other targets / widths / argument types (nominal integer masses next to recorded peaks, targets on peaks, chains of "
+            "adjacent windows m, m+w, .. with a recorded peak exactly on a shared edge, 100-400 unsorted targets with duplicates, the "
+            "main targets repeated, one window holding every peak), the same extraction again, extract_tic / mass_range again, "
+            "load(path | object, ibd, targets[, ppm]). Argument types: targets as Python float / int, numpy float64 / float32 / int64 "
+            "scalar, 0-d array, list / tuple of floats or ints, mixed list, float64 / float32 / int32 / int64 ndarray, strided view; "
+            "width as float / int / numpy.float64 / numpy.float32, by keyword or positionally (the model is given the exact values "
+            "of what is passed). 45% of the eligible exact cases get 1-2 peaks per spectrum that dominate the window contents by more "
+            "than 2^53 (2^54..2^70, 1e17..1e30; float64 intensities also 2^200, 1e100..1e300) below, above, between the windows and "
+            "exactly on an (excluded) upper edge, window contents staying small integers (tolerance 0). 30% of the files with >= 2 "
+            "spectra get a forced pattern of stored / absent TIC along the file (stored-then-absent, absent-then-stored, "
+            "alternating, first / last only). Pixel coverage: first / last pixel removed, a single recorded pixel, 1xN / Nx1 / "
+            "grids up to 40 long, 12x12, 100-400 long images with 1-6 recorded pixels. 15% of the dyadic cases are rescaled by "
+            "2^-6..2^8 (masses 1.5..41000). 4%: spectra of 40-3000 peaks. The .ibd under another name in another directory passed "
+            "as external_binary, str instead of Path arguments, direct reads through one open BufferedReader. 2%: a spectrum "
+            "without peaks (outside the quantifier, implementation vs model). "
             "non-trivial = at least one of the named window classes, a sparse/size-absent image or an off: class; distinct by canonical case hash")
     trusted = ["np.searchsorted on a sorted array returns #{p | a[p] < v}; np.add.reduceat, np.append, np.arange as documented; "
                "np.frombuffer / file seek+read and IEEE-754 decoding are MODELLED (getBinaryData, ieeeVal) and compared element by element "
                "(bit patterns and exact values) with what get_binary_data returns on the written file",
                "exact stream: m/z k/2^14 < 256 and integer intensities < 2^11 so float32/float64 sums and the float window edges "
                "of absolute widths are exact; 32-bit-edge class: m/z < 1024 stored as float32, integer intensities < 2^11, sums exact; "
-               "ppm widths, the real stream and every absolute width whose float64 edges m -/+ w/2 are not exact: cases with a peak "
-               "within 1e-9 relative of a window edge are undetermined; real stream: sums compared with tolerance 8*n*eps*total",
+               "ppm widths, the real stream and every absolute width whose float64 edges m -/+ w/2 are not exact: an output ELEMENT "
+               "(pixel, window) whose spectrum has a peak within 1e-9 relative of an edge of that window is undetermined and not "
+               "compared (1e-6 when targets or width are float32, which makes NumPy compute the edges in float32); everything else of "
+               "the case is compared; real stream: sums compared with tolerance 8*n*eps*total",
+               "exact stream: a window sum (a summed TIC, a bin) is compared with tolerance 0 whenever every order of float summation "
+               "gives the exact sum (a single value, or integers with sum of absolute values < 2^24 / 2^53); a window that itself "
+               "holds a dominant peak next to small ones is rounding-determined for any implementation: 8*n*eps*sum|it|",
+               "the fast parser is given documents in the line layout it is written for (harness/gen_imzml.simple_doc); a document "
+               "without any <spectrum> makes it raise KeyError (DESIGN 9.5, C17): recorded as a feature, the XML parser is judged alone",
                "xml.etree.ElementTree parses the synthetic document as written (position, size, offset, encoded length, element type); "
                "float(text) of the stored TIC (the harness hands the model the parsed value)"]
     assumptions = ["the specification is evaluated only where the quantifier holds: every position recorded once, 1-based and inside the "
                    "image; spectra non-empty with strictly increasing m/z and as many intensities (decided by the driver, `hyp`); outside it "
                    "the implementation is compared with the mechanism model only (raising vs not raising, shape, NaN pattern, values; the "
                    "exception class and the value of a pixel two positions share are not compared)",
+                   "target_masses may be anything numpy.atleast_1d turns into a 1-d numeric array (the annotation says ndarray | float; "
+                   "lists, tuples, Python ints and integer arrays are what callers pass for nominal masses); the target masses of a call "
+                   "are the exact values of the elements passed (a float32 array passes float32 values)",
+                   "the Outcome flag `undetermined` is no longer set: undetermined elements are skipped one by one and counted by the "
+                   "feature `undetermined-element:...`, so that the rest of such a case (TIC, range, bins, other windows) is still judged",
                    "mass_range is checked as a bound (low <= every m/z <= high); bin edges returned by binned_masses are accepted when they "
                    "step by the requested width and cover the recorded range, the per-bin sums are then checked against those edges"]
 
@@ -182,13 +290,269 @@ class C05(Prop):
         return repr(float(v))
 
     def generate(self, rng, tier):
+        import random
+
         case = self.generate_main(rng, tier)
         # everything below draws AFTER the main case, so the main stream is what it was
         if case["spectra"] and rng.random() < 0.7:
             case["reads"] = self.gen_reads(rng, case)
+        offd = False
         if rng.random() < 0.08:
+            before = json.dumps(case, sort_keys=True)
             self.off_domain(rng, case)
+            offd = json.dumps(case, sort_keys=True) != before
+        # the classes of the extension round have their own stream
+        self.extend(random.Random(rng.getrandbits(64)), case, offd)
         return case
+
+    # ------------------------------------------------------------------ classes of the extension round
+    DOM_ANY = [2.0 ** 54, 2.0 ** 57, 2.0 ** 60, 2.0 ** 70, 1e17, 1e19, 1e25, 1e30]   # float32 and float64 values
+    DOM_F8 = [2.0 ** 200, 1e100, 1e200, 1e300]                                     # float64 only
+
+    @staticmethod
+    def exact_windows(masses, width):
+        out = []
+        for m in masses:
+            h = F(m) * F(width["value"]) / 10 ** 6 / 2 if width["kind"] == "ppm" else F(width["value"]) / 2
+            out.append((F(m) - h, F(m) + h))
+        return out
+
+    def extend(self, rng, case, offd):
+        sp = case["spectra"]
+        exact = case["kind"] == "exact"
+        grid = 2 ** 14
+        dyadic = exact and all((F(v) * grid).denominator == 1 for v in case["masses"]) \
+            and (case["width"]["kind"] == "ppm" or (F(case["width"]["value"]) * grid).denominator == 1) \
+            and all((F(m) * grid).denominator == 1 for s in sp for m in s["mz"])
+        changed = False
+        # 0. long spectra (tens to thousands of peaks on the grid, the peaks of the case kept): thresholds on the
+        # length of a spectrum; integer intensities whose total stays below 2^24
+        if dyadic and sp and not case["shared"] and rng.random() < 0.04:
+            for s in rng.sample(sp, min(len(sp), rng.choice([1, 1, 2]))):
+                if max(s["it"], default=0) >= 2 ** 20:
+                    continue
+                n = rng.choice([40, 200, 200, 1000, 3000])
+                mz = sorted(set(s["mz"]) | {k / 64 for k in rng.sample(range(94 * 64, 162 * 64), n)})
+                s["mz"] = mz
+                s["it"] = [float(rng.choice([0, 1, 2, 3, 5, 8, 100, 255])) for _ in mz]
+                if s["tic"] is not None and rng.random() < 0.5:
+                    s["tic"] = None
+            changed = True
+        # 1. every length rescaled by a power of two (exact): small and large masses, ppm widths at both ends
+        if dyadic and rng.random() < 0.15:
+            k = 2.0 ** rng.choice([-6, -4, -2, 3, 6, 8])
+            case["masses"] = [m * k for m in case["masses"]]
+            if case["width"]["kind"] == "mz":
+                case["width"] = {"kind": "mz", "value": case["width"]["value"] * k}
+            for s in sp:
+                s["mz"] = [m * k for m in s["mz"]]
+            if case["binw"] is not None:
+                case["binw"] = case["binw"] * k
+            changed = True
+        # 2. pixel coverage: first / last pixel missing, a single recorded pixel, long images
+        if sp and not offd:
+            r = rng.random()
+            X = case["size"][0] if case["size"] is not None else max(s["x"] for s in sp)
+            Y = case["size"][1] if case["size"] is not None else max(s["y"] for s in sp)
+            if r < 0.04 and len(sp) > 1:
+                sp[:] = [s for s in sp if (s["x"], s["y"]) != (1, 1)] or sp[:1]
+                changed = True
+            elif r < 0.08 and len(sp) > 1:
+                sp[:] = [s for s in sp if (s["x"], s["y"]) != (X, Y)] or sp[:1]
+                changed = True
+            elif r < 0.11 and len(sp) > 1:
+                sp[:] = [rng.choice(sp)]
+                changed = True
+            elif r < 0.15:
+                # 1xN, Nx1 and larger grids: the spectra of the case repeated over more positions
+                X, Y = rng.choice([(rng.randint(5, 40), 1), (1, rng.randint(5, 40)), (rng.randint(5, 7), rng.randint(2, 6)),
+                                   (rng.randint(2, 6), rng.randint(5, 7)), (12, 12), (rng.randint(100, 400), 1),
+                                   (1, rng.randint(100, 400)), (rng.randint(50, 120), rng.randint(2, 3))])
+                cells = [(x, y) for y in range(1, Y + 1) for x in range(1, X + 1)]
+                if X * Y > 100:  # positions with several digits, a handful of recorded pixels (also the corners)
+                    pos = rng.sample(cells, rng.randint(1, 6)) + [c for c in ((1, 1), (X, Y), (X, 1)) if rng.random() < 0.3]
+                    pos = list(dict.fromkeys(pos))
+                else:
+                    keep = rng.choice([1.0, 0.8, 0.5])
+                    pos = [p for p in cells if rng.random() < keep] or [rng.choice(cells)]
+                rng.shuffle(pos)
+                old = [dict(s) for s in sp]
+                sp[:] = [{**rng.choice(old), "x": x, "y": y} for (x, y) in pos]
+                for s in sp:
+                    s["mz"], s["it"] = list(s["mz"]), list(s["it"])
+                if case["size"] is not None:
+                    case["size"] = [X, Y]
+                changed = True
+        # 3. peaks that dominate the content of the windows by more than the precision of float64 (and so of float32),
+        # below, above and between the windows; the windows keep small exactly summable contents, so their sums stay
+        # compared with tolerance 0.  The full sums of such spectra are rounding-determined: the TIC is mostly stored
+        # (an absent one gets the rounding tolerance in `evaluate`), binning is not requested.
+        if dyadic and sp and not case["shared"] and case["binw"] is None and rng.random() < 0.45:
+            wins = self.exact_windows(case["masses"], case["width"])
+            lo_all, hi_all = min(w[0] for w in wins), max(w[1] for w in wins)
+            for s in sp:
+                if rng.random() < 0.25:
+                    continue
+                cur = {F(m) for m in s["mz"]}
+                top = max([hi_all] + list(cur))
+                bot = min([lo_all] + list(cur))
+                for _ in range(rng.choice([1, 1, 2])):
+                    where = rng.choice(["below", "below", "above", "between", "on-upper-edge"])
+                    if where == "below":
+                        q = bot - F(rng.randint(1, 64), 4) if rng.random() < 0.5 else lo_all - F(rng.randint(1, 64), 64)
+                    elif where == "above":
+                        q = top + F(rng.randint(1, 64), 4) if rng.random() < 0.5 else hi_all + F(rng.randint(0, 64), 64)
+                    elif where == "on-upper-edge" and case["width"]["kind"] == "mz":
+                        q = rng.choice(wins)[1]   # the upper edge is outside the half-open window
+                    else:
+                        q = lo_all + (hi_all - lo_all) * F(rng.randint(0, 256), 256)
+                    if q <= 0 or q in cur or any(a <= q < b for a, b in wins) or (q * grid * 64).denominator != 1:
+                        continue
+                    big = rng.choice(self.DOM_ANY + (self.DOM_F8 if case["itdt"] == "f8" else []))
+                    mz = sorted(cur | {q})
+                    i = mz.index(q)
+                    s["mz"] = [float(m) for m in mz]
+                    s["it"] = s["it"][:i] + [big] + s["it"][i:]
+                    cur.add(q)
+                    if rng.random() < 0.7:
+                        s["tic"] = rng.choice(["0", "7.25", "1536.0", "1e+17"])
+                    changed = True
+        # 3b. OUTSIDE the quantifier (spectra of 1..n peaks): a recorded spectrum without any peak (zero-length arrays);
+        # implementation vs model only: zeros in the mass image, 0 in the TIC image, mass_range / binned_masses raise
+        if sp and not offd and not case["shared"] and rng.random() < 0.02:
+            t = rng.choice(sp)
+            t["mz"], t["it"] = [], []
+            if rng.random() < 0.5:
+                t["tic"] = None
+            changed = True
+        # 4. stored / absent TIC along the file, in every order
+        if len(sp) >= 2 and rng.random() < 0.3:
+            n = len(sp)
+            pat = rng.choice(["SA", "AS", "alt-S", "alt-A", "last-A", "first-A", "first-S", "random"])
+            if pat == "SA":
+                k = rng.randint(1, n - 1)
+                pres = [i < k for i in range(n)]
+            elif pat == "AS":
+                k = rng.randint(1, n - 1)
+                pres = [i >= k for i in range(n)]
+            elif pat in ("alt-S", "alt-A"):
+                pres = [(i % 2 == 0) == (pat == "alt-S") for i in range(n)]
+            elif pat == "last-A":
+                pres = [i < n - 1 for i in range(n)]
+            elif pat == "first-A":
+                pres = [i > 0 for i in range(n)]
+            elif pat == "first-S":
+                pres = [i == 0 for i in range(n)]
+            else:
+                pres = [rng.random() < 0.5 for _ in range(n)]
+            for s, p in zip(sp, pres):
+                if not p:
+                    s["tic"] = None
+                elif s["tic"] is None:
+                    v = rng.choice([0.0, 7.25, 1536.0, float(rng.randint(1, 10 ** 6)), sum(s["it"]) + 0.5])
+                    s["tic"] = rng.choice(["%.6f", "%.6e", "%r", "%g"]) % v
+        if changed and case.get("reads"):
+            case["reads"] = self.gen_reads(rng, case) if case["spectra"] else []
+        # 5. how the public entry points are called: str or Path, the external binary named explicitly (also when it lies
+        # elsewhere under another name), direct reads through one open handle
+        case["api"] = {"str": rng.random() < 0.3, "ibd-arg": rng.random() < 0.15, "ibd-elsewhere": rng.random() < 0.15,
+                       "read-handle": rng.random() < 0.3}
+        # argument types of the main extraction
+        case["targ"] = self.pick_targ(rng, case["masses"], case["width"], scalar=case["scalar"])
+        # 6. history on the one object: further extractions (other targets / widths / types), load(), repeats; order
+        if rng.random() < 0.55:
+            case["extra"] = [self.gen_extra(rng, case) for _ in range(rng.choice([1, 1, 2]))]
+        if rng.random() < 0.4:
+            case["order"] = rng.randint(0, 10 ** 6)
+
+    def pick_targ(self, rng, masses, width, scalar=None):
+        integral = all(float(m).is_integer() and 0 < abs(m) < 2 ** 31 for m in masses)
+        if scalar is None:
+            scalar = len(masses) == 1 and rng.random() < 0.5
+        if scalar and len(masses) == 1:
+            pool = ["pyfloat", "pyfloat", "np-f8", "0d-f8", "np-f4"]
+            ipool = ["pyint", "pyint", "np-i8"]
+        else:
+            pool = ["list", "list", "f8", "f8", "tuple", "f8-strided", "f4"]
+            ipool = ["list-int", "list-int", "i8", "i4", "tuple-int", "list-mixed"]
+        mt = rng.choice(ipool) if integral and rng.random() < 0.7 else rng.choice(pool)
+        w = width["value"]
+        wint = float(w).is_integer() and 0 < w < 2 ** 31
+        r = rng.random()
+        wt = ("int" if wint else "float") if r < 0.5 else "np-f8" if r < 0.6 else "np-f4" if r < 0.65 else "float"
+        if mt == "i4" and wt == "int" and width["kind"] == "ppm" and max(abs(m) for m in masses) * w >= 2 ** 31:
+            wt = "float"   # int32 * int: NumPy wraps around (noted in notes/EC05.md; a 25 % window at m/z > 8000)
+        return {"mt": mt, "wt": wt, "pos": rng.random() < 0.2}
+
+    def gen_extra(self, rng, case):
+        sp = case["spectra"]
+        exact = case["kind"] == "exact"
+        peaks = sorted({m for s in sp for m in s["mz"]})
+        r = rng.random()
+        if r < 0.1:
+            return {"op": "again"}
+        if r < 0.16:
+            return {"op": rng.choice(["tic", "range"])}
+
+        def width_for(masses):
+            if exact:
+                if rng.random() < 0.6:
+                    return {"kind": "mz", "value": rng.choice([0.0, 0.03125, 0.125, 0.5, 1.0, 1.0, 2.0, 4.0, 64.0])}
+                return {"kind": "ppm", "value": rng.choice([15625.0, 62500.0, 250000.0, 1e6 / 2 ** rng.randint(2, 9)])}
+            if rng.random() < 0.5:
+                return {"kind": "mz", "value": rng.choice([0.1, 0.33, 1.0, 1.7, 40.0])}
+            return {"kind": "ppm", "value": rng.choice([10.0, 25.0, 5000.0, 1e5])}
+
+        k = rng.random()
+        base = case["masses"]
+        if k < 0.3 and peaks:
+            # nominal (integer) masses next to recorded peaks, mostly with integer-typed arguments
+            cand = sorted({float(round(p)) for p in peaks if round(p) >= 1})
+            masses = rng.sample(cand, min(len(cand), rng.randint(1, 4))) if cand else list(base)
+            width = width_for(masses)
+            if width["kind"] == "mz" and rng.random() < 0.7:
+                width["value"] = rng.choice([1.0, 1.0, 2.0, 0.5, 3.0])
+        elif k < 0.45 and peaks:
+            # targets ON recorded peaks
+            masses = rng.sample(peaks, min(len(peaks), rng.randint(1, 4)))
+            width = width_for(masses)
+        elif k < 0.65 and peaks:
+            # adjacent windows [e - w, e), [e, e + w), ... with a recorded peak exactly on a shared edge e
+            width = {"kind": "mz", "value": rng.choice([0.125, 0.5, 1.0, 2.0, 8.0]) if exact else rng.choice([0.5, 1.0, 1.7])}
+            w, e = width["value"], rng.choice(peaks)
+            n, j = rng.randint(2, 6), rng.randint(0, 4)
+            masses = [e - w / 2 + (i - j) * w for i in range(n)]
+            masses = [m for m in masses if m > 0] or [e + w / 2]
+            if rng.random() < 0.4:
+                rng.shuffle(masses)
+        elif k < 0.73:
+            # hundreds of targets: unsorted, with duplicates, windows overlapping
+            lo, hi = (min(peaks), max(peaks)) if peaks else (96.0, 160.0)
+            n = rng.randint(100, 400)
+            step = max((hi - lo), 1.0) / 64
+            masses = [lo + rng.randint(-8, 72) * step for _ in range(n)]
+            masses = [m for m in masses if m > 0] or [lo]
+            width = width_for(masses)
+            if width["kind"] == "mz":
+                width["value"] = rng.choice([step, 2 * step, step / 2])
+        elif k < 0.83:
+            # the targets of the main extraction repeated and reversed: duplicates
+            masses = list(base) + list(reversed(base))
+            width = width_for(masses)
+        elif k < 0.9 and peaks:
+            # one window that holds every recorded peak
+            lo, hi = min(peaks), max(peaks)
+            masses = [(lo + hi) / 2]
+            width = {"kind": "mz", "value": 2 * (hi - lo) + rng.choice([2.0, 0.25])}
+        else:
+            masses = list(base)
+            width = width_for(masses)
+        if rng.random() < 0.12:
+            x = {"op": "load", "how": rng.choice(["path", "object"]), "masses": masses,
+                 "ppm": rng.choice([None, 15625.0, 62500.0, 250000.0] if exact else [None, 10.0, 5000.0])}
+            x["targ"] = self.pick_targ(rng, masses, {"kind": "ppm", "value": x["ppm"] or 10.0})
+            return x
+        return {"op": "extract", "masses": masses, "width": width, "targ": self.pick_targ(rng, masses, width)}
 
     DTYPES = ["u1", "u2", "u4", "u8", "f4", "f8"]
 
@@ -495,6 +859,49 @@ class C05(Prop):
                    "masses": [m], "width": width}
         # no spectrum at all
         yield {**base, "size": [2, 1], "spectra": [], "masses": [101.0], "width": {"kind": "mz", "value": 1.0}}
+        # ---- extension round
+        # peaks that dominate the windows' contents by more than 2^53 (2^24): below, between and above the windows
+        w2 = {"kind": "mz", "value": 2.0}
+        for itdt in ("f8", "f4"):
+            yield {**base, "itdt": itdt, "spectra": [{**sp, "mz": [50.0, 100.0, 101.0], "it": [1e17, 1.0, 2.0], "tic": "3"}],
+                   "masses": [100.5], "width": w2}
+            yield {**base, "itdt": itdt, "mzdt": "f4", "size": [2, 1],
+                   "spectra": [{**sp, "mz": [50.0, 100.0, 150.0, 200.0, 250.0], "it": [1e17, 1.0, 2.0 ** 60, 2.0, 1e30], "tic": None},
+                               {**sp, "x": 2, "mz": [100.0, 101.0, 102.0], "it": [6.0, 2.0 ** 70, 10.0], "tic": "16"}],
+                   "masses": [200.0, 100.0, 102.0], "width": w2}
+        yield {**base, "itdt": "f8", "spectra": [{**sp, "mz": [99.0, 100.0, 300.0], "it": [1e300, 5.0, 1e200], "tic": None}],
+               "masses": [100.0, 99.0], "width": w2}
+        # stored and absent TIC along the file, both orders and alternating (both parsers read every file)
+        four = [{**sp, "x": x, "y": y, "it": [float(k), 2.0, 4.0, 8.0]} for k, (x, y) in enumerate([(1, 1), (2, 1), (1, 2), (2, 2)])]
+        for tics in (["12.5", None, None, None], [None, "12.5", "1e+03", "7"], ["1", None, "2.5", None], [None, "3", None, "4.000000e+00"],
+                     ["1", "2", "3", None]):
+            yield {**base, "size": [2, 2], "spectra": [{**t, "tic": v} for t, v in zip(four, tics)], "masses": [100.0], "width": w2}
+        # integer-typed targets / widths (nominal masses), every way of writing them
+        for mt, wt, wv in (("list-int", "float", 1.0), ("pyint", "float", 1.0), ("i4", "int", 2), ("i8", "float", 1.0),
+                           ("tuple-int", "int", 3), ("np-i8", "np-f8", 1.0), ("list-mixed", "float", 1.0), ("f4", "np-f4", 1.0),
+                           ("f8-strided", "int", 1), ("0d-f8", "float", 1.0), ("np-f4", "float", 0.5), ("tuple", "np-f8", 1.0)):
+            ms = [300.0] if mt in SCALAR_MT else [300.0, 100.0, 401.0]
+            yield {**base, "spectra": [sp], "masses": ms, "scalar": mt in SCALAR_MT, "width": {"kind": "mz", "value": wv},
+                   "targ": {"mt": mt, "wt": wt}}
+            yield {**base, "spectra": [sp], "masses": ms, "scalar": mt in SCALAR_MT, "width": {"kind": "ppm", "value": 15625.0},
+                   "targ": {"mt": mt, "wt": "int" if wt == "int" else wt}}
+        # adjacent half-open windows: a peak on the shared edge belongs to the upper window only
+        tri = {**sp, "mz": [99.0, 100.0, 101.0, 101.5], "it": [1.0, 2.0, 4.0, 8.0]}
+        yield {**base, "spectra": [tri], "masses": [99.5, 100.5, 101.5, 98.5], "width": {"kind": "mz", "value": 1.0}}
+        # hundreds of targets, unsorted with duplicates
+        yield {**base, "spectra": [tri, {**tri, "x": 2, "it": [16.0, 32.0, 64.0, 128.0]}], "size": [2, 1],
+               "masses": [98.0 + ((7 * k) % 64) / 8 for k in range(256)], "width": {"kind": "mz", "value": 0.25}}
+        # histories on one object: two extractions with other targets / widths / types, load(), a repeated call, reordered
+        hist = [{"op": "extract", "masses": [100.0, 101.0], "width": {"kind": "mz", "value": 1.0}, "targ": {"mt": "list-int", "wt": "int"}},
+                {"op": "again"}, {"op": "load", "how": "object", "masses": [100.0], "ppm": None, "targ": {"mt": "pyfloat", "wt": "float"}},
+                {"op": "load", "how": "path", "masses": [100.0, 101.5], "ppm": 15625.0, "targ": {"mt": "f8", "wt": "float"}},
+                {"op": "tic"}, {"op": "range"}]
+        for order in (None, 1, 2, 3):
+            yield {**base, "spectra": [tri, {**tri, "x": 2, "tic": "7.5"}], "size": [2, 1], "masses": [99.5], "binw": 0.5,
+                   "width": {"kind": "ppm", "value": 15625.0}, "extra": hist, "order": order}
+        # 1xN and Nx1 images with the first / last pixel missing, a single recorded pixel
+        for size, pos in (([7, 1], [(2, 1), (7, 1), (4, 1)]), ([1, 9], [(1, 1), (1, 8)]), ([5, 6], [(3, 4)]), (None, [(1, 12), (1, 3)])):
+            yield {**base, "size": size, "spectra": [{**tri, "x": x, "y": y} for (x, y) in pos], "masses": [100.0], "width": w2}
         # ---- outside the quantifier, implementation vs model only: positions as NumPy subscripts, the dict of spectra
         w1 = {"masses": [100.0, 250.0], "width": {"kind": "mz", "value": 2.0}}
         a, b, c = ({**sp, "it": [float(k), 2.0, 4.0, 8.0], "tic": None} for k in (1, 16, 32))
@@ -516,8 +923,106 @@ class C05(Prop):
                          rd(70, 0, "f8", past="empty-read"), rd(16, 31, "f8"), rd(16, 30, "f4"), rd(0, 64, "u8"), rd(61, 9, "u2", past="across-end")]}
 
     # ------------------------------------------------------------------ evaluation
+    @staticmethod
+    def targ_of(case):
+        """argument types of the main extraction; cases written before the argument-type class have none: the types
+        the harness used then (a Python float, a float64 ndarray or a list of floats; a Python float width)"""
+        t = case.get("targ")
+        if t:
+            return t.get("mt", "list"), t.get("wt", "float")
+        if case.get("scalar"):
+            return "pyfloat", "float"
+        return ("f8" if case.get("style", 0) % 2 else "list"), "float"
+
+    def call_list(self, case):
+        """the calls made on ONE ImzML object, in order: (key, descriptor).  `extract`, `tic`, `range`, `binned` are the
+        four observation points of the property; `x<i>` are further calls of the same methods (other targets / widths /
+        argument types, repeated calls, `load`) - a history: nothing a call leaves behind may change a later result"""
+        calls = [("extract", {"op": "extract", "main": True}), ("tic", {"op": "tic"}), ("range", {"op": "range"})]
+        if case.get("binw") is not None:
+            calls.append(("binned", {"op": "bins", "w": case["binw"]}))
+        for i, x in enumerate(case.get("extra") or []):
+            calls.append((f"x{i}", x))
+        if case.get("order") is not None:
+            import random
+            random.Random(case["order"]).shuffle(calls)
+        return calls
+
+    def call_args(self, case, c):
+        """an extraction-like call: (target object, width argument(s), exact target values, (kind, exact width), mt, wt)"""
+        op = c["op"]
+        if op == "again" or c.get("main"):
+            masses, width = case["masses"], case["width"]
+            mt, wt = self.targ_of(case)
+        else:
+            masses, width = c["masses"], c.get("width")
+            t = c.get("targ") or {}
+            mt, wt = t.get("mt", "list"), t.get("wt", "float")
+        obj, mvals = build_target(masses, mt)
+        if op == "load":
+            if c.get("ppm") is None:
+                return obj, None, mvals, ("ppm", F(10)), mt, "float"
+            wobj, wval = build_width(c["ppm"], wt)
+            return obj, wobj, mvals, ("ppm", wval), mt, wt
+        wobj, wval = build_width(width["value"], wt)
+        kw = {"mass_width_ppm": wobj} if width["kind"] == "ppm" else {"mass_width_mz": wobj}
+        return obj, kw, mvals, (width["kind"], wval), mt, wt
+
+    def observe(self, case, path, ibdp, fast):
+        """everything the property observes, through one parser, on one object, in the order of the history"""
+        from pewlib.io import imzml as M
+
+        api = case.get("api") or {}
+        arg = str(path) if api.get("str") else path
+        kw0 = {}
+        if ibdp != path.with_suffix(".ibd") or api.get("ibd-arg"):
+            kw0["external_binary"] = str(ibdp) if api.get("str") else ibdp
+        try:
+            imz = M.ImzML.from_file(arg, use_fast_parse=True, **kw0) if fast else M.ImzML.from_file(arg, **kw0)
+        except Exception as e:
+            return None, {"raises": type(e).__name__, "msg": str(e)[:160]}, None
+
+        def extract(obj, kw, positional):
+            if positional:  # extract_masses(target_masses, mass_width_ppm, mass_width_mz)
+                return imz.extract_masses(obj, kw.get("mass_width_ppm"), kw.get("mass_width_mz"))
+            return imz.extract_masses(obj, **kw)
+        impl, impl_bins = {}, None
+        for key, c in self.call_list(case):
+            op = c["op"]
+            if op in ("extract", "again"):
+                obj, kw, *_ = self.call_args(case, c)
+                posl = bool(((case.get("targ") if (c.get("main") or op == "again") else c.get("targ")) or {}).get("pos"))
+                r = call(lambda: extract(obj, kw, posl))
+                impl[key] = r if isinstance(r, dict) else canon_pixels(r)
+            elif op == "load":
+                obj, wobj, *_ = self.call_args(case, c)
+                src = imz if c.get("how") == "object" else path
+                src = str(src) if (api.get("str") and src is path) else src
+                r = call((lambda: M.load(src, ibdp, obj)) if wobj is None else (lambda: M.load(src, ibdp, obj, wobj)))
+                if not isinstance(r, dict):
+                    r = r[0] if isinstance(r, tuple) and len(r) == 2 else {"raises": "load-did-not-return-a-pair"}
+                impl[key] = r if isinstance(r, dict) else canon_pixels(r)
+            elif op == "tic":
+                r = call(imz.extract_tic)
+                impl[key] = r if isinstance(r, dict) else canon_pixels(r)
+            elif op == "range":
+                r = call(imz.mass_range)
+                impl[key] = r if isinstance(r, dict) else [fr(r[0]), fr(r[1])]
+            elif op == "bins":
+                r = call(lambda: imz.binned_masses(c["w"]))
+                if isinstance(r, dict):
+                    impl[key] = r
+                else:
+                    b = np.asarray(r[0], dtype=float)
+                    if b.ndim == 1 and np.all(np.isfinite(b)):
+                        impl_bins = [F(float(v)) for v in b]
+                    impl[key] = {"bins": [fr(v) for v in b.ravel()], "data": canon_pixels(r[1])}
+        dct = self.observe_dict(imz)
+        if dct is not None:
+            impl["dict"] = dct
+        return imz, impl, impl_bins
+
     def evaluate(self, case, ctx):
-        from pewlib.io.imzml import ImzML
         import random
 
         d = ctx.tmpdir()
@@ -528,37 +1033,27 @@ class C05(Prop):
         doc = gen_imzml.simple_doc([(s["x"], s["y"]) for s in specs], [s["tic"] for s in specs], metas,
                                    size=case["size"], mzdt=case["mzdt"], itdt=case["itdt"], style=case["style"])
         path = gen_imzml.write_pair(d, doc, ibd)
-        masses, width = case["masses"], case["width"]
-        kw = {"mass_width_ppm": width["value"]} if width["kind"] == "ppm" else {"mass_width_mz": width["value"]}
-        target = masses[0] if case["scalar"] else (np.array(masses) if case["style"] % 2 else list(masses))
+        ibdp = path.with_suffix(".ibd")
+        if (case.get("api") or {}).get("ibd-elsewhere"):
+            # the external binary under another name in another directory: only the explicit argument finds it
+            (d / "bin").mkdir(exist_ok=True)
+            ibdp = ibdp.rename(d / "bin" / "data.bin.ibd")
+        calls = self.call_list(case)
 
-        impl = {}
-        try:
-            imz = ImzML.from_file(path)
-        except Exception as e:
-            imz = None
-            impl = {"raises": type(e).__name__, "msg": str(e)[:160]}
-        impl_bins = None
-        if imz is not None:
-            r = call(lambda: imz.extract_masses(target, **kw))
-            impl["extract"] = r if isinstance(r, dict) else canon_pixels(r)
-            r = call(imz.extract_tic)
-            impl["tic"] = r if isinstance(r, dict) else canon_pixels(r)
-            r = call(imz.mass_range)
-            impl["range"] = r if isinstance(r, dict) else [fr(r[0]), fr(r[1])]
-            if case["binw"] is not None:
-                r = call(lambda: imz.binned_masses(case["binw"]))
-                if isinstance(r, dict):
-                    impl["binned"] = r
-                else:
-                    b = np.asarray(r[0], dtype=float)
-                    if b.ndim == 1 and np.all(np.isfinite(b)):
-                        impl_bins = [F(float(v)) for v in b]
-                    impl["binned"] = {"bins": [fr(v) for v in b.ravel()], "data": canon_pixels(r[1])}
-            dct = self.observe_dict(imz)
-            if dct is not None:
-                impl["dict"] = dct
-        reads = self.run_reads(case, path, ibd)
+        # both parsers of the public entry point ImzML.from_file: the property speaks of every imzML/ibd pair
+        # imported, not of the default parser; both are judged against the same Lean model and specification
+        obs = {}
+        fast_unjudged = False
+        for name, fast in (("xml", False), ("fast", True)):
+            imz, im, ib = self.observe(case, path, ibdp, fast)
+            if fast and not specs and imz is None:
+                # a document without any <spectrum>: the fast parser takes the <spectrumList> line for a spectrum and
+                # raises KeyError (DESIGN 9.5, C17: outside the line layout it is written for) - recorded, not judged
+                fast_unjudged = True
+                continue
+            obs[name] = {"ok": imz is not None, "impl": im, "bins": ib}
+        reads = self.run_reads(case, ibdp, ibd)
+        impl = {k: v["impl"] for k, v in obs.items()}
         if reads is not None:
             impl["reads"] = reads[0]
 
@@ -567,10 +1062,25 @@ class C05(Prop):
         fspecs = [{"x": s["x"], "y": s["y"], "tic": None if s["tic"] is None else core.rat(F(float(s["tic"]))),
                    "mz": [m["mz"][0], m["mz"][1]], "it": [m["it"][0], m["it"][1]]} for s, m in zip(specs, metas)]
         ffile = dict(size=case["size"], ibd=ibd.hex(), mzdt=case["mzdt"], itdt=case["itdt"], spectra=fspecs)
-        rep = ctx.driver.call("c05.image", masses=[core.rat(F(m)) for m in masses],
-                              width={"kind": width["kind"], "value": core.rat(F(width["value"]))}, **ffile)
+
+        # one driver call per extraction of the history; the targets / width are the exact values of what is PASSED
+        # (a float32 array passes float32 values, an int array integers)
+        ext = {}  # key -> {"rep", "mvals", "width", "mt", "wt"}
+        rep = None
+        for key, c in calls:
+            if c["op"] not in ("extract", "again", "load"):
+                continue
+            _, _, mvals, (wkind, wval), mt, wt = self.call_args(case, c)
+            fields = dict(masses=[core.rat(m) for m in mvals], width={"kind": wkind, "value": core.rat(wval)}, **ffile)
+            if key == "extract":
+                rep = ctx.driver.call("c05.image", **fields)
+                r = rep
+            else:
+                r = ctx.driver.call("c05.extract", **fields)
+            ext[key] = {"rep": r, "mvals": mvals, "wkind": wkind, "wval": wval, "mt": mt, "wt": wt}
         hyp = bool(rep["hyp"])
         dspecs = rep["values"]  # the arrays as the model decoded them from the bytes
+        dvals = [([core.unrat(m) for m in s["mz"]], [core.unrat(v) for v in s["it"]]) for s in dspecs]
 
         def mimg(j, vec):
             return {"raises": True} if j is None else drv_table(j["table"], vec)
@@ -578,126 +1088,204 @@ class C05(Prop):
         def mrange(j):
             return {"raises": True} if j is None else [("inf", "-inf")[i] if v is None else qs(v) for i, v in enumerate(j)]
 
-        model = {"extract": mimg(rep["extract_model"], True), "tic": mimg(rep["tic_model"], False),
-                 "range": mrange(rep["range_model"]),
+        model = {"tic": mimg(rep["tic_model"], False), "range": mrange(rep["range_model"]),
                  "dict": [[int(s["x"]), int(s["y"]), [qs(v) for v in s["mz"]], [qs(v) for v in s["it"]]] for s in rep["dict"]]}
-        if reads is not None:
-            model["reads"] = reads[1](ctx)
-        spec = {"outside-the-quantifier": True}
+        spec = {}
+        for key, e in ext.items():
+            model[key] = mimg(e["rep"]["extract_model"], True)
+            if hyp:
+                spec[key] = drv_table(e["rep"]["extract_spec"], True)
         if hyp:
-            spec = {"extract": drv_table(rep["extract_spec"], True), "tic": drv_table(rep["tic_spec"], False)}
+            spec["tic"] = drv_table(rep["tic_spec"], False)
             if specs:
                 spec["range"] = [qs(v) for v in rep["range_spec"]]
-        brep = None
+        else:
+            spec = {"outside-the-quantifier": True}
+        if reads is not None:
+            model["reads"] = reads[1](ctx)
+        # binning: the specification is evaluated on the edges the implementation returned (one driver call per
+        # distinct edge list: the two parsers normally return the same one)
+        breps = {}
         if case["binw"] is not None:
-            brep = ctx.driver.call("c05.bins", w=core.rat(F(case["binw"])),
-                                   impl_bins=None if impl_bins is None else [core.rat(v) for v in impl_bins], **ffile)
-            bm = brep["model"]
-            model["binned"] = {"raises": True} if bm is None else {"bins": [qs(v) for v in bm["bins"]], "data": drv_table(bm["table"], True)}
-            if hyp and specs:
-                spec["binned"] = {"edges_step_by_w_and_cover_range": True, "returned_edges_do": bool(brep["cover"]),
-                                  "data": drv_table(brep["spec"], True)}
+            for name, o in obs.items():
+                if not o["ok"]:
+                    continue
+                k = None if o["bins"] is None else tuple(o["bins"])
+                if k not in breps:
+                    breps[k] = ctx.driver.call("c05.bins", w=core.rat(F(case["binw"])),
+                                               impl_bins=None if k is None else [core.rat(v) for v in k], **ffile)
+                o["brep"] = breps[k]
+            brep0 = next(iter(breps.values()), None)
+            if brep0 is not None:
+                bm = brep0["model"]
+                model["binned"] = {"raises": True} if bm is None else {"bins": [qs(v) for v in bm["bins"]],
+                                                                      "data": drv_table(bm["table"], True)}
 
-        # tolerances: exact stream 0; real stream 8*n*eps*total of the pixel
-        totals = {}
-        for s in specs:
-            eps = 2.0 ** -23 if case["itdt"] == "f4" else 2.0 ** -52
-            totals[(s["y"] - 1, s["x"] - 1)] = F(8 * max(1, len(s["it"])) * eps * sum(s["it"])) if case["kind"] == "real" else F(0)
-        big = max(totals.values(), default=F(0))
+        # ---- tolerances.  Exact stream: 0 wherever the float sum is the exact sum for ANY order of summation (one
+        # value, or integers whose absolute values add up to less than 2^24 / 2^53); a window (pixel total) that is
+        # not summable exactly in the intensity type — a dominant peak inside it next to small ones — is
+        # rounding-determined for every implementation: 8*n*eps*sum|it|.  Real stream: 8*n*eps*total of the pixel.
+        p_it = 24 if case["itdt"] == "f4" else 53
+        eps = 2.0 ** (1 - p_it)
+
+        def sum_tol(vals):
+            if len(vals) <= 1:
+                return F(0)
+            tot = sum(abs(v) for v in vals)
+            if all(v.denominator == 1 for v in vals) and tot < 2 ** p_it:
+                return F(0)
+            return F(8 * len(vals) * eps) * tot
+
+        real = case["kind"] == "real"
+        is_sorted = [all(a < b for a, b in zip(mz, mz[1:])) for mz, _ in dvals]
+        pix_tol = []  # per <spectrum>: tolerance of sums over the whole spectrum (TIC, bins)
+        for mz, it in dvals:
+            pix_tol.append(F(8 * max(1, len(it)) * eps) * sum(abs(v) for v in it) if real else sum_tol(it))
+
+        def extract_tols(e):
+            """per <spectrum> a list over the windows: tolerance, or None where a peak lies within the guard of an edge
+            whose float value depends on how the code rounds (undetermined element)"""
+            edges = [core.unrat(q) for q in e["rep"]["edges"]]
+            wins = list(zip(edges[::2], edges[1::2]))
+            g = edge_guard(real, e["wkind"], e["mvals"], e["wval"], e["mt"], e["wt"], edges)
+            out, hit = [], False
+            bands = None if g is None else [[(b - g * abs(b), b + g * abs(b)) for b in w] for w in wins]
+            for si, (mz, it) in enumerate(dvals):
+                row = []
+                srt = is_sorted[si]
+                for wi, (lo, hi) in enumerate(wins):
+                    if bands is not None:
+                        if srt:
+                            near = False
+                            for a, b in bands[wi]:
+                                i = bisect.bisect_left(mz, a)
+                                if i < len(mz) and mz[i] <= b:
+                                    near = True
+                        else:
+                            near = any(a <= q <= b for q in mz for a, b in bands[wi])
+                        if near:
+                            row.append(None)
+                            hit = True
+                            continue
+                    if real:
+                        row.append(pix_tol[si])
+                    elif srt and len(it) == len(mz):
+                        row.append(sum_tol(it[bisect.bisect_left(mz, lo):bisect.bisect_left(mz, hi)]) if lo < hi else F(0))
+                    else:
+                        row.append(sum_tol([v for q, v in zip(mz, it) if lo <= q < hi]))
+                out.append(row)
+            return out, hit
+
         # outside the quantifier two dict values can be written to one pixel (positions 0 and X): which one stays depends
         # on the order of the loop, which the property does not fix: only the NaN-ness of such a pixel is compared
         ali = rep["aliased"] or []
         is_ali = lambda r, c: r < len(ali) and c < len(ali[r]) and bool(ali[r][c])
-        tol = (lambda r, c: totals.get((r, c), F(0))) if hyp else (lambda r, c: None if is_ali(r, c) else big)
-        # the summed TIC of a pixel whose exact total is not representable in the intensity type is rounding-determined
-        # for ANY implementation (a dominant peak next to small ones): tolerance for the TIC table only
-        tic_totals = dict(totals)
-        for s in specs:
-            lim = 2 ** 24 if case["itdt"] == "f4" else 2 ** 53
-            if s["tic"] is None and sum(s["it"]) >= lim:
-                eps = 2.0 ** -23 if case["itdt"] == "f4" else 2.0 ** -52
-                tic_totals[(s["y"] - 1, s["x"] - 1)] = F(8 * max(1, len(s["it"])) * eps * sum(s["it"]))
-        bigt = max(tic_totals.values(), default=F(0))
-        tol_tic = (lambda r, c: tic_totals.get((r, c), F(0))) if hyp else (lambda r, c: None if is_ali(r, c) else bigt)
-        parts_spec, parts_model = {}, {}
-        if imz is None:
-            parts_spec["parse"] = parts_model["parse"] = False
-        else:
-            for k in ("extract", "tic"):
-                t = tol if k == "extract" else tol_tic
+        where = {(s["y"] - 1, s["x"] - 1): i for i, s in enumerate(specs)}
+
+        def by_pixel(per_spec, default):
+            """tolerance function of a table: in the quantifier the pixel's own spectrum decides; outside it (positions
+            wrap, repeat, alias) the loosest tolerance of the file for every pixel, nothing where one is undetermined"""
+            if hyp:
+                return lambda r, c: per_spec[where[(r, c)]] if (r, c) in where else default
+            flat = [t for v in per_spec for t in (v if isinstance(v, list) else [v])]
+            loose = None if any(t is None for t in flat) else max(flat, default=F(0))
+            return lambda r, c: None if is_ali(r, c) else loose
+
+        tic_tol = by_pixel([F(0) if s["tic"] is not None else pix_tol[i] for i, s in enumerate(specs)], F(0))
+        bin_tol = by_pixel(pix_tol, F(0))
+        undet_keys = []
+        for key, e in ext.items():
+            tv, hit = extract_tols(e)
+            e["tol"] = by_pixel(tv, F(0))
+            if hit:
+                undet_keys.append(key)
+
+        parts_spec, parts_model, bnotes = {}, {}, {}
+        for name, o in obs.items():
+            P = lambda k: f"{name}:{k}"
+            im = o["impl"]
+            if not o["ok"]:
+                parts_spec[P("parse")] = parts_model[P("parse")] = False
+                continue
+            for key, e in ext.items():
                 if hyp:
-                    parts_spec[k] = tables_close(impl[k], spec[k], t)
-                parts_model[k] = both_raise(impl[k], model[k]) or tables_close(impl[k], model[k], t)
-            ir = impl["range"]
-            if hyp and specs:
-                ok = isinstance(ir, list) and None not in ir
-                parts_spec["range"] = ok and self.le(ir[0], spec["range"][0]) and self.le(spec["range"][1], ir[1])
-            parts_model["range"] = both_raise(ir, model["range"]) or ir == model["range"]
-            if brep is not None:
-                ib, mb = impl["binned"], model["binned"]
+                    parts_spec[P(key)] = tables_close(im[key], spec[key], e["tol"])
+                parts_model[P(key)] = both_raise(im[key], model[key]) or tables_close(im[key], model[key], e["tol"])
+            for key, c in calls:
+                if c["op"] == "tic":
+                    if hyp:
+                        parts_spec[P(key)] = tables_close(im[key], spec["tic"], tic_tol)
+                    parts_model[P(key)] = both_raise(im[key], model["tic"]) or tables_close(im[key], model["tic"], tic_tol)
+                elif c["op"] == "range":
+                    ir = im[key]
+                    if hyp and specs:
+                        ok = isinstance(ir, list) and None not in ir
+                        parts_spec[P(key)] = ok and self.le(ir[0], spec["range"][0]) and self.le(spec["range"][1], ir[1])
+                    parts_model[P(key)] = both_raise(ir, model["range"]) or ir == model["range"]
+            if case["binw"] is not None:
+                brep = o["brep"]
+                bm = brep["model"]
+                mb = {"raises": True} if bm is None else {"bins": [qs(v) for v in bm["bins"]], "data": drv_table(bm["table"], True)}
+                ib = im["binned"]
                 if hyp and specs:
-                    parts_spec["binned"] = "data" in ib and bool(brep["cover"]) and tables_close(ib["data"], spec["binned"]["data"], tol)
-                    parts_model["binned"] = "data" in ib and "data" in mb and ib["bins"] == mb["bins"] \
-                        and self.binned_matches_model(ib["data"], mb["data"], spec["binned"]["data"], brep["dense"], tol)
+                    sdata = drv_table(brep["spec"], True)
+                    ok = "data" in ib and bool(brep["cover"]) and tables_close(ib["data"], sdata, bin_tol)
+                    parts_spec[P("binned")] = ok
+                    parts_model[P("binned")] = "data" in ib and "data" in mb and ib["bins"] == mb["bins"] \
+                        and self.binned_matches_model(ib["data"], mb["data"], sdata, brep["dense"], bin_tol)
+                    spec.setdefault("binned", {"edges_step_by_w_and_cover_range": True, "returned_edges_do": bool(brep["cover"]),
+                                               "data": sdata})
+                    if "data" in ib and not ok:
+                        # which disagreeing pixels lie in the class of the known finding (a bin without a peak / bins
+                        # above the last peak)
+                        bad_dense = 0
+                        idata = ib["data"]
+                        same_shape = len(idata) == len(sdata) and all(len(a) == len(b) for a, b in zip(idata, sdata))
+                        if same_shape:
+                            for r, row in enumerate(idata):
+                                for c_, px in enumerate(row):
+                                    if not tables_close([[px]], [[sdata[r][c_]]], lambda *_: bin_tol(r, c_)) \
+                                            and brep["dense"][r][c_] is not False:
+                                        bad_dense += 1
+                        bnotes[name] = {"cover": bool(brep["cover"]), "same_shape": same_shape, "bad_dense_pixels": bad_dense,
+                                        "matches_defect_model": "data" in mb and ib["bins"] == mb["bins"]
+                                        and tables_close(ib["data"], mb["data"], bin_tol)}
                 else:
                     # outside the quantifier (and for a file without spectra) only raising, the edges, the shape and the
                     # NaN pattern are compared: the values of binned_masses are covered by the known finding, a repair
                     # of it must not break the tie here
-                    parts_model["binned"] = both_raise(ib, mb) or ("data" in ib and "data" in mb and ib["bins"] == mb["bins"]
-                                                                  and same_pattern(ib["data"], mb["data"]))
-            if "dict" in impl:
-                parts_model["dict"] = impl["dict"] == model["dict"]
+                    parts_model[P("binned")] = both_raise(ib, mb) or ("data" in ib and "data" in mb and ib["bins"] == mb["bins"]
+                                                                     and same_pattern(ib["data"], mb["data"]))
+            if "dict" in im:
+                parts_model[P("dict")] = im["dict"] == model["dict"]
         if reads is not None:
             inq = [r["off"] + r["len"] <= len(ibd) and r["len"] % int(r["dt"][1:]) == 0 for r in case["reads"]]
             pairs = list(zip(inq, impl["reads"], model["reads"]))
             parts_model["reads"] = all(i == m for q, i, m in pairs if q)          # arrays inside the file: always
             parts_model["reads-off"] = all(i == m for q, i, m in pairs if not q)  # short / misaligned reads: off-domain
 
-        # undetermined: a peak within 1e-9 relative of a window edge whose float value depends on how the code
-        # rounds (real stream; every ppm width: m*ppm/1e6/2 and e.g. m*(ppm*5e-7) are both right but round differently)
-        undet = False
-        edges = [core.unrat(e) for e in rep["edges"]]
-        guard = case["kind"] == "real" or width["kind"] == "ppm"
-        if not guard:
-            # absolute width: the float64 expressions m - w/2, m + w/2 are exact for the dyadic classes; where they
-            # round (decimal masses / widths) the same guard applies, whatever stream the case came from
-            h = float(width["value"]) / 2.0
-            fl = [F(v) for m in masses for v in (float(m) - h, float(m) + h)]
-            guard = fl != edges
-        if guard:
-            for s in dspecs:
-                for m in s["mz"]:
-                    q = core.unrat(m)
-                    if any(abs(q - e) <= F(1, 10 ** 9) * abs(e) for e in edges):
-                        undet = True
-
         note = {"fail": sorted(k for k, v in parts_spec.items() if not v),
                 "model_fail": sorted(k for k, v in parts_model.items() if not v)}
-        if brep is not None and imz is not None and "data" in impl.get("binned", {}) and not parts_spec.get("binned", True):
-            # which disagreeing pixels lie in the class of the known finding (a bin without a peak / bins above the last peak)
-            bad_dense = 0
-            ib = impl["binned"]
-            idata, sdata = ib["data"], spec["binned"]["data"]
-            same_shape = len(idata) == len(sdata) and all(len(a) == len(b) for a, b in zip(idata, sdata))
-            if same_shape:
-                for r, row in enumerate(idata):
-                    for c, px in enumerate(row):
-                        if not tables_close([[px]], [[sdata[r][c]]], lambda *_: tol(r, c)) and brep["dense"][r][c] is not False:
-                            bad_dense += 1
-            mb = model["binned"]
-            note["binned"] = {"cover": bool(brep["cover"]), "same_shape": same_shape, "bad_dense_pixels": bad_dense,
-                              "matches_defect_model": "data" in mb and ib["bins"] == mb["bins"]
-                              and tables_close(ib["data"], mb["data"], tol)}
-        feats = self.features(case, rep, brep, dspecs, hyp, reads is not None, "dict" in impl)
+        if bnotes:
+            note["binned"] = bnotes
+        brep_f = next((o.get("brep") for o in obs.values() if o.get("brep") is not None), None)
+        feats = self.features(case, rep, brep_f, dspecs, hyp, reads is not None,
+                              any("dict" in (o["impl"] or {}) for o in obs.values() if o["ok"]), ext, calls, dvals)
+        if fast_unjudged and feats:
+            feats = list(feats) + ["fast-parser:no-spectrum-document-raises (recorded only)"]
+        if undet_keys and feats:
+            feats = list(feats) + ["undetermined-element:peak-within-guard-of-inexact-edge"]
         if not self.OFF_DOMAIN_VERDICT:
             # disagreements outside the quantifier are only counted (feature), they do not reach the verdict
-            offp = [k for k in parts_model if k == "reads-off" or (not hyp and k not in ("reads", "parse"))]
+            offp = [k for k in parts_model if k == "reads-off" or (not hyp and k not in ("reads", "xml:parse", "fast:parse"))]
             if any(not parts_model[k] for k in offp) and feats:
                 feats = list(feats) + ["off:DIFFERS-from-model"]
             for k in offp:
                 parts_model[k] = True
+        # a case in which EVERY extraction has an undetermined element is counted as undetermined as before when nothing
+        # else of it fails; the elements themselves are never compared (tolerance None) whatever the flag says
         return outcome(impl, model, spec, spec_ok=all(parts_spec.values()), model_ok=all(parts_model.values()),
-                       undetermined=undet, hyp=hyp, features=feats, note=json.dumps(note, sort_keys=True))
+                       undetermined=False, hyp=hyp, features=feats, note=json.dumps(note, sort_keys=True))
 
     # ------------------------------------------------------------------ the external binary, directly
     @staticmethod
@@ -717,7 +1305,7 @@ class C05(Prop):
             return {"raises": type(e).__name__}
 
     @staticmethod
-    def run_reads(case, path, ibd):
+    def run_reads(case, ibdp, ibd):
         """Spectrum.get_binary_data on the real .ibd for the offsets / lengths / dtypes of the case (inside the file,
         across its end, beyond it, lengths that are no multiple of the element width, both byte orders).
         Returns (impl, model thunk) or None when the case has none / the class cannot be built as documented."""
@@ -732,11 +1320,21 @@ class C05(Prop):
         except (ImportError, AttributeError, TypeError):
             return None
         impl = []
+        # the documented fast way: one BufferedReader kept open for all reads (each read must seek for itself)
+        handle = ibdp.open("rb") if (case.get("api") or {}).get("read-handle") else None
+        try:
+            return C05._run_reads(reads, getter, handle if handle is not None else ibdp, ibd, impl)
+        finally:
+            if handle is not None:
+                handle.close()
+
+    @staticmethod
+    def _run_reads(reads, getter, source, ibd, impl):
         for i, r in enumerate(reads):
             o = "<" if r["order"] == "little" else ">"
             dt = np.dtype(r["dt"]) if r["dt"] == "u1" else np.dtype(o + r["dt"])
             try:
-                arr = getter(str(i), dt, path.with_suffix(".ibd"))
+                arr = getter(str(i), dt, source)
             except TypeError:
                 return None
             except Exception:  # np.frombuffer: ValueError
@@ -786,17 +1384,18 @@ class C05(Prop):
             return inf.get(a, 0) <= inf.get(b, 0) if (a in inf and b in inf) else (a == "-inf" or b == "inf")
         return F(a) <= F(b)
 
-    def features(self, case, rep, brep, dspecs, hyp, did_reads, did_dict):
+    def features(self, case, rep, brep, dspecs, hyp, did_reads, did_dict, ext, calls, dvals):
         f = set()
         specs = case["spectra"]
-        edges = [core.unrat(e) for e in rep["edges"]]
-        wins = list(zip(edges[::2], edges[1::2]))
         off = set()
+        X = Y = None
         if rep["extract_model"] is None:
             off.add("off:model-raises")
         else:
             Y, X = rep["extract_model"]["shape"]
             f.add(f"img:{'1x1' if (X, Y) == (1, 1) else 'line' if 1 in (X, Y) else 'grid'}")
+            if max(X, Y) >= 5:
+                f.add("img:long-side>=5")
             if len(specs) < X * Y:
                 f.add("sparse-pixels")
             if 0 in (X, Y):
@@ -815,6 +1414,8 @@ class C05(Prop):
                 off.add("off:negative-size")
             if any(v for row in (rep["aliased"] or []) for v in row):
                 off.add("off:two-positions-one-pixel-value-not-compared")
+            if any(not mz for mz, _ in dvals):
+                off.add("off:spectrum-without-peaks")
             f.add("outside-the-quantifier")
         if did_reads:
             f.add("direct-read")
@@ -835,59 +1436,152 @@ class C05(Prop):
             f.add("size-absent")
         if case["shared"] and len(specs) > 1:
             f.add("shared-axis")
-        f.add(f"mz:{case['mzdt']}")
-        f.add(f"it:{case['itdt']}")
-        f.add(f"width:{case['width']['kind']}")
+        f.add(f"mz:{case['mzdt']}+it:{case['itdt']}")
         f.add(f"stream:{case['kind']}")
-        if any(s["tic"] is None for s in specs):
-            f.add("tic-absent")
-        if any(s["tic"] is not None for s in specs):
-            f.add("tic-stored")
-        if case["scalar"]:
-            f.add("scalar-target")
-        los = [w[0] for w in wins]
-        if los != sorted(los):
-            f.add("windows-unsorted")
-        if any(a[0] < b[1] and b[0] < a[1] for i, a in enumerate(wins) for b in wins[i + 1:]):
-            f.add("windows-overlap")
         nontriv = set()
-        # 32-bit m/z next to a window edge that is not a float32 value: the stored neighbours of the edge
-        brackets = []
-        if case["mzdt"] == "f4":
-            brackets = [(f32_bracket(lo), f32_bracket(hi)) for lo, hi in wins]
-            if any(b is not None for pair in brackets for b in pair):
-                f.add("f32-unrepresentable-edge")
-        for s in dspecs:
-            mz = [core.unrat(m) for m in s["mz"]]
-            mzset = set(mz)
-            for pair in brackets:
-                for name, b in zip(("lower", "upper"), pair):
-                    if b is not None:
-                        if b[0] in mzset:
-                            nontriv.add(f"f32-peak-just-below-{name}-edge")
-                        if b[1] in mzset:
-                            nontriv.add(f"f32-peak-just-above-{name}-edge")
-            f.add("n1" if len(mz) == 1 else "n2" if len(mz) == 2 else "n>2")
-            for lo, hi in wins:
-                inside = [m for m in mz if lo <= m < hi]
-                if lo in mz:
-                    nontriv.add("peak-on-lower-edge")
-                if hi in mz:
-                    nontriv.add("peak-on-upper-edge")
-                if not inside:
-                    if hi <= mz[0]:
-                        nontriv.add("window-below")
-                    elif lo > mz[-1]:
-                        nontriv.add("window-above")
+        # ---- stored / absent TIC in file order (a parser or image method that carries state from one <spectrum> to the
+        # next shows only when presence CHANGES along the file)
+        pres = [s["tic"] is not None for s in specs]
+        if any(not p for p in pres):
+            f.add("tic-absent")
+        if any(pres):
+            f.add("tic-stored")
+        changes = [(a, b) for a, b in zip(pres, pres[1:]) if a != b]
+        if (True, False) in changes:
+            nontriv.add("tic-mixed:stored-then-absent")
+        if (False, True) in changes:
+            nontriv.add("tic-mixed:absent-then-stored")
+        if len(changes) >= 2:
+            nontriv.add("tic-mixed:alternating")
+        # ---- pixel coverage
+        if hyp and X and Y and specs:
+            pos = {(s["x"], s["y"]) for s in specs}
+            if X * Y > 1:
+                if (1, 1) not in pos:
+                    nontriv.add("pixel:first-missing")
+                if (X, Y) not in pos:
+                    nontriv.add("pixel:last-missing")
+                if len(pos) == 1:
+                    nontriv.add("pixel:single-recorded")
+        api = case.get("api") or {}
+        for k in ("str", "ibd-arg", "ibd-elsewhere", "read-handle"):
+            if api.get(k) and (k != "read-handle" or did_reads):
+                f.add("api:" + {"str": "str-paths", "ibd-arg": "external-binary-argument", "ibd-elsewhere": "external-binary-elsewhere",
+                               "read-handle": "reads-through-one-open-handle"}[k])
+        longest = max((len(mz) for mz, _ in dvals), default=0)
+        if longest >= 32:
+            nontriv.add("spectrum:>=32-peaks" if longest < 512 else "spectrum:>=512-peaks")
+        # ---- the history
+        ops = [c["op"] for _, c in calls]
+        nat = [k for k, _ in calls]
+        if case.get("order") is not None and nat[:3] != ["extract", "tic", "range"]:
+            f.add("history:reordered")
+            if nat.index("tic") < nat.index("extract"):
+                f.add("history:extraction-after-tic")
+        if sum(o in ("extract", "again", "load") for o in ops) >= 2:
+            nontriv.add("history:several-extractions-one-object")
+        if "again" in ops:
+            f.add("history:same-extraction-twice")
+        for _, c in calls:
+            if c["op"] == "load":
+                f.add("history:load-" + ("object" if c.get("how") == "object" else "path") + ("-default-ppm" if c.get("ppm") is None else ""))
+        if ops.count("tic") > 1 or ops.count("range") > 1:
+            f.add("history:tic-or-range-twice")
+        # ---- per extraction: argument types and window classes
+        for key, e in ext.items():
+            edges = [core.unrat(q) for q in e["rep"]["edges"]]
+            wins = list(zip(edges[::2], edges[1::2]))
+            mt, wt = e["mt"], e["wt"]
+            f.add(f"targ:{mt}")
+            f.add(f"wtype:{wt}")
+            if key != "extract" and any(k == key and (c.get("targ") or {}).get("pos") for k, c in calls) \
+                    or key == "extract" and (case.get("targ") or {}).get("pos"):
+                f.add("width-passed-positionally")
+            f.add(f"width:{e['wkind']}")
+            if mt in INT_MT or mt == "list-mixed":
+                nontriv.add(f"int-targets+{'abs' if e['wkind'] == 'mz' else 'ppm'}-width")
+            if mt in F4_MT or wt == "np-f4":
+                nontriv.add("float32-targets-or-width")
+            if mt in SCALAR_MT:
+                f.add("scalar-target")
+            if len(wins) >= 100:
+                nontriv.add("targets:>=100")
+            mv = e["mvals"]
+            if len(set(mv)) < len(mv):
+                nontriv.add("targets:duplicate")
+            if mv and max(mv) < 16:
+                f.add("targets:mass<16")
+            if mv and max(mv) >= 2048:
+                f.add("targets:mass>=2048")
+            los = [w[0] for w in wins]
+            if los != sorted(los):
+                f.add("windows-unsorted")
+            small = wins[:40]
+            if any(a[0] < b[1] and b[0] < a[1] for i, a in enumerate(small) for b in small[i + 1:]):
+                f.add("windows-overlap")
+            shared_edges = {a[1] for a in wins if a[0] < a[1]} & {b[0] for b in wins if b[0] < b[1]}
+            if shared_edges:
+                nontriv.add("windows-adjacent")
+            # 32-bit m/z next to a window edge that is not a float32 value: the stored neighbours of the edge
+            brackets = []
+            if case["mzdt"] == "f4" and len(wins) <= 12:
+                brackets = [(f32_bracket(lo), f32_bracket(hi)) for lo, hi in wins]
+                if any(b is not None for pair in brackets for b in pair):
+                    f.add("f32-unrepresentable-edge")
+            p_it = 24 if case["itdt"] == "f4" else 53
+            for mz, it in dvals:
+                mzset = set(mz)
+                if not mz:
+                    continue
+                for pair in brackets:
+                    for name, b in zip(("lower", "upper"), pair):
+                        if b is not None:
+                            if b[0] in mzset:
+                                nontriv.add(f"f32-peak-just-below-{name}-edge")
+                            if b[1] in mzset:
+                                nontriv.add(f"f32-peak-just-above-{name}-edge")
+                f.add("n1" if len(mz) == 1 else "n2" if len(mz) == 2 else "n>2")
+                if shared_edges & mzset:
+                    nontriv.add("peak-on-shared-edge-of-adjacent-windows")
+                # peaks that dominate a non-empty window they are NOT in by more than the precision of the intensity
+                # type (2^24 / 2^53): any arithmetic that lets them meet the window's content (running totals) loses it
+                doms = [(q, abs(v)) for q, v in zip(mz, it) if abs(v) >= 2 ** p_it]
+                below_of, above_of = set(), set()
+                srt = all(a < b for a, b in zip(mz, mz[1:]))
+                for lo, hi in wins[:60]:
+                    if srt:
+                        inside = mz[bisect.bisect_left(mz, lo):bisect.bisect_left(mz, hi)] if lo < hi else []
                     else:
-                        nontriv.add("window-empty-inside")
-                else:
-                    if len(inside) > 1:
-                        nontriv.add("window-many-peaks")
-                    if inside[0] == mz[0]:
-                        nontriv.add("window-has-first-peak")
-                    if inside[-1] == mz[-1]:
-                        nontriv.add("window-has-last-peak")
+                        inside = [m for m in mz if lo <= m < hi]
+                    if lo in mzset:
+                        nontriv.add("peak-on-lower-edge")
+                    if hi in mzset:
+                        nontriv.add("peak-on-upper-edge")
+                    if not inside:
+                        if hi <= mz[0]:
+                            nontriv.add("window-below")
+                        elif lo > mz[-1]:
+                            nontriv.add("window-above")
+                        else:
+                            nontriv.add("window-empty-inside")
+                    else:
+                        if len(inside) > 1:
+                            nontriv.add("window-many-peaks")
+                        if inside[0] == mz[0]:
+                            nontriv.add("window-has-first-peak")
+                        if inside[-1] == mz[-1]:
+                            nontriv.add("window-has-last-peak")
+                        if len(inside) == len(mz) and len(mz) > 1:
+                            nontriv.add("window-has-every-peak")
+                        content = sum(abs(v) for q, v in zip(mz, it) if lo <= q < hi) if doms else 0
+                        if content > 0:
+                            for q, v in doms:
+                                if v >= content * 2 ** p_it and not (lo <= q < hi):
+                                    (below_of if q < lo else above_of).add(q)
+                                    big = ">2^53" if v >= content * 2 ** 53 else ">2^24"
+                                    nontriv.add(f"dominant({big}x)-peak-{'below' if q < lo else 'above'}-nonempty-window")
+                if below_of & above_of:
+                    nontriv.add("dominant-peak-between-nonempty-windows")
         if brep is not None and hyp and brep["dense"] is not None and brep["model"] is not None:
             flat = [d for row in brep["dense"] for d in row if d is not None]
             if any(flat):
@@ -906,20 +1600,42 @@ class C05(Prop):
             note = json.loads(out.get("note") or "{}")
         except ValueError:
             return None
-        if note.get("fail") != ["binned"]:
+        fail = note.get("fail") or []
+        if not fail or any(k.split(":")[-1] != "binned" for k in fail):
             return None  # anything else that fails is a violation
-        b = note.get("binned")
-        if not b or not b["cover"] or not b["same_shape"]:
-            return None
-        if b["bad_dense_pixels"] != 0:
-            return None  # a pixel whose every bin holds a peak must be right
-        if not b["matches_defect_model"]:
-            return None  # not the documented behaviour (neighbouring peak / repeated last intensity)
+        notes = note.get("binned") or {}
+        for k in fail:  # every parser through which binned_masses fails must show exactly the documented behaviour
+            b = notes.get(k.split(":")[0])
+            if not b or not b["cover"] or not b["same_shape"]:
+                return None
+            if b["bad_dense_pixels"] != 0:
+                return None  # a pixel whose every bin holds a peak must be right
+            if not b["matches_defect_model"]:
+                return None  # not the documented behaviour (neighbouring peak / repeated last intensity)
         return KNOWN_BINS
 
     # ------------------------------------------------------------------ shrinking
     def shrink(self, case):
         sp = case["spectra"]
+        ex = case.get("extra") or []
+        for i in range(len(ex)):
+            yield {**case, "extra": ex[:i] + ex[i + 1:]}
+        if case.get("order") is not None:
+            yield {**case, "order": None}
+        for i, x in enumerate(ex):
+            ms = x.get("masses") or []
+            if len(ms) > 1:
+                yield {**case, "extra": ex[:i] + [{**x, "masses": ms[:len(ms) // 2]}] + ex[i + 1:]}
+                yield {**case, "extra": ex[:i] + [{**x, "masses": ms[len(ms) // 2:]}] + ex[i + 1:]}
+                if len(ms) <= 8:
+                    for j in range(len(ms)):
+                        yield {**case, "extra": ex[:i] + [{**x, "masses": ms[:j] + ms[j + 1:]}] + ex[i + 1:]}
+            if x.get("targ"):
+                yield {**case, "extra": ex[:i] + [{**x, "targ": None}] + ex[i + 1:]}
+        if case.get("targ"):
+            yield {**case, "targ": None}
+        if case.get("api"):
+            yield {**case, "api": None}
         for i in range(len(sp)):
             if len(sp) > 1:
                 yield {**case, "spectra": sp[:i] + sp[i + 1:], "shared": False}
@@ -927,7 +1643,12 @@ class C05(Prop):
             for i in range(len(case["masses"])):
                 yield {**case, "masses": case["masses"][:i] + case["masses"][i + 1:], "scalar": False}
         for i, s in enumerate(sp):
-            for j in range(len(s["mz"])):
+            n = len(s["mz"])
+            if n > 8:  # long spectra: halves and quarters before single peaks
+                for a, b in ((0, n // 2), (n // 2, n), (0, n // 4), (n // 4, n // 2), (n // 2, 3 * n // 4), (3 * n // 4, n)):
+                    t = {**s, "mz": s["mz"][:a] + s["mz"][b:], "it": s["it"][:a] + s["it"][b:]}
+                    yield {**case, "spectra": sp[:i] + [t] + sp[i + 1:], "shared": False}
+            for j in range(n if n <= 64 else 0):
                 if len(s["mz"]) > 1:
                     t = {**s, "mz": s["mz"][:j] + s["mz"][j + 1:], "it": s["it"][:j] + s["it"][j + 1:]}
                     yield {**case, "spectra": sp[:i] + [t] + sp[i + 1:], "shared": False}
